@@ -7,7 +7,8 @@ from harness.core import Sub
 from harness.session import Session
 
 RULE = ("histories on a sender and 1..2 recipients tuned to meet (versions 0/1 drawn per transceiver): FAKE_DROP n / FAKE_DROP n "
-        "period (n -2..6, period -1..5, 51, 102) to a recipient, RFMUTE 0/1 on sender or recipient, SETFORMAT, and bursts whose "
+        "period (n -2..6, period -1..5, 51, 102) to a recipient, RFMUTE 0/1 on sender or recipient, SETFORMAT, radio settings that shape forwarded "
+        "bursts but must not touch NOPE indications (sender SETTA / SETPOWER, recipient FAKE_TOA / FAKE_RSSI / FAKE_CI), and bursts whose "
         "FN is drawn to hit and to miss the period. Oracle: counter model - each transmitted burst yields at each recipient "
         "exactly one of: the burst; on v1 one NOPE (header only, NOPE bit, RSSI -110, ToA256 0, C/I -30, same fn/tn); on v0 "
         "nothing. Suppressed <=> muted (either side) or (budget > 0 and fn mod period == 0), which decrements the budget; "
@@ -19,13 +20,28 @@ ASSUMPTIONS = ["content of forwarded bursts is C10's business: only burst-vs-NOP
 
 
 @st.composite
+def radio_step(draw):
+    """settings that shape the metadata of FORWARDED bursts (sender timing advance / power, recipient's simulated ToA / RSSI / C/I):
+    a suppressed burst's NOPE indication carries the noise constants whatever these are"""
+    verb = draw(st.sampled_from(["SETTA", "SETTA", "SETPOWER", "FAKE_TOA", "FAKE_RSSI", "FAKE_CI"]))
+    if verb == "SETTA":
+        return {"op": "cmd", "who": "s", "verb": verb, "args": [str(draw(st.one_of(st.integers(1, 63), st.integers(0, 3))))]}
+    if verb == "SETPOWER":
+        return {"op": "cmd", "who": "s", "verb": verb, "args": [str(draw(st.integers(0, 30)))]}
+    val = {"FAKE_TOA": st.integers(-2000, 2000), "FAKE_RSSI": st.integers(-100, -50), "FAKE_CI": st.integers(-200, 300)}[verb]
+    return {"op": "cmd", "who": draw(st.sampled_from(["r0", "r0", "r1"])), "verb": verb, "args": [str(draw(val)), str(draw(st.integers(0, 5)))]}
+
+
+@st.composite
 def case_st(draw):
     cfg = draw(simgen.app_config(max_extra=1))
     n = simgen.n_trx(cfg)
     steps = []
     period_hint = 1
+    for _ in range(draw(st.integers(0, 2))):
+        steps.append(draw(radio_step()))          # half of the cases start with non-default radio settings
     for _ in range(draw(st.integers(2, 60))):
-        k = draw(st.sampled_from(["burst"] * 14 + ["drop", "drop", "drop", "mute", "fmt"]))
+        k = draw(st.sampled_from(["burst"] * 14 + ["drop", "drop", "drop", "mute", "fmt", "radio"]))
         if k == "burst" and steps and steps[-1]["op"] == "burst" and draw(st.integers(0, 3)) == 0:
             # several timeslots of one frame: the same frame number again
             steps.append({"op": "burst", "fn": steps[-1]["fn"], "tn": draw(st.integers(0, 7))})
@@ -51,6 +67,8 @@ def case_st(draw):
                 if amount >= 0 and period > 0:
                     period_hint = period
             steps.append({"op": "cmd", "who": draw(st.sampled_from(["r0", "r0", "r0", "r1"])), "verb": "FAKE_DROP", "args": args})
+        elif k == "radio":
+            steps.append(draw(radio_step()))
         elif k == "mute":
             steps.append({"op": "cmd", "who": draw(st.sampled_from(["s", "r0", "r1"])), "verb": "RFMUTE",
                           "args": [str(draw(st.sampled_from([0, 0, 1, 1, 2])))]})
